@@ -5,12 +5,17 @@
 (* test produced for that unit must be the machine's token sequence.         *)
 (*                                                                           *)
 (* TRACE_FILE: JSON array of units                                           *)
-(*   [lines |-> << line, ... >>, obs |-> [ok, toks]]                         *)
+(*   [lines |-> << line, ... >>, obs |-> [ok, toks], tobs |-> [ok, toks],    *)
+(*    want |-> status]                                                       *)
 (* a line is a sequence of tokens, a token is the integer sequence           *)
 (*   << kind, ws, c1, c2, ... >>  kind: 1 id 2 num 3 punct 4 str 5 chr,      *)
 (*   ws: 1 = preceded by white space, c1.. = character codes of the spelling *)
 (* obs.ok = the implementation returned normally, obs.toks = its tokens     *)
-(*   << kind, c1, c2, ... >> (white space is not compared).                  *)
+(*   << kind, c1, c2, ... >> (white space is not compared);                  *)
+(* tobs = the same for the text the implementation prints, lexed again;     *)
+(* want = "" for an observed unit; for a reference unit (an example of the  *)
+(*   standard with the result the standard states as obs) the status the    *)
+(*   machine has to end in.                                                  *)
 EXTENDS Cpp, Json, IOUtils, TLC
 
 Recs == JsonDeserialize(IOEnv.TRACE_FILE)
@@ -55,6 +60,10 @@ Next == PickChunk \/ PickRec \/ Text \/ Skip \/ Null \/ Define \/ Undef \/ Other
 \* only units with a defined result are judged
 Allowed(S, obs) == S.status = "ok" => (obs.ok /\ ObsToks(obs.toks) = Proj(S.out))
 Conforms == fin => Allowed(st, Recs[i].obs)
+\* the printed form must lex back to the same tokens (judged when the token stream itself conforms)
+TextConforms == (fin /\ st.status = "ok" /\ Allowed(st, Recs[i].obs)) => Allowed(st, Recs[i].tobs)
+\* reference units: the machine reproduces the standard's own examples
+Reference == (fin /\ Recs[i].want # "") => st.status = Recs[i].want
 \* machine invariants, evaluated in every state of every unit
 NoFuel == st.status # "fuel"
 SkippingHoldsNoText == ~Live(st.cs) => st.pend = <<>>
